@@ -109,41 +109,46 @@ Definition mergeRanges (t o : rtok) : rtok :=
     let mx := if Nat.leb (maxc t) (elemc t + elemc o)%nat then (maxc t + maxc o)%nat else maxc t in
     mkR (merge_go (rs t) (rs o)) (srt t) (cmpd t) mx true.
 
-(** the while loop of subtractRanges; [sb] is fRanges[srcCount] (rewritten in place when a head is cut off) *)
+(** the while loop of subtractRanges.  [sub_inner] is the loop while srcCount stays on one source range: [se] is its
+    end, [sb] is fRanges[srcCount] (rewritten in place when a head is cut off), [rec] continues with the next source
+    range and the current position in the subtrahend *)
+Fixpoint sub_inner (rec : list rng -> list rng) (se : N) (src' : list rng) (sb : N) (sub : list rng) : list rng :=
+  match sub with
+  | [] => (sb, se) :: src'
+  | (ub, ue) :: sub' =>
+      if se <? ub then (sb, se) :: rec sub
+      else if (ub <=? se) && (sb <=? ue) then
+        if (ub <=? sb) && (se <=? ue) then rec sub
+        else if ub <=? sb then sub_inner rec se src' (ue + 1) sub'
+        else if se <=? ue then (sb, ub - 1) :: rec sub
+        else (sb, ub - 1) :: sub_inner rec se src' (ue + 1) sub'
+      else sub_inner rec se src' sb sub'
+  end.
+
 Fixpoint sub_go (src : list rng) : list rng -> list rng :=
   match src with
   | [] => fun _ => []
-  | (sb0, se) :: src' =>
-      (fix inner (sb : N) (sub : list rng) : list rng :=
-         match sub with
-         | [] => (sb, se) :: src'
-         | (ub, ue) :: sub' =>
-             if se <? ub then (sb, se) :: sub_go src' sub
-             else if (ub <=? se) && (sb <=? ue) then
-               if (ub <=? sb) && (se <=? ue) then sub_go src' sub
-               else if ub <=? sb then inner (ue + 1) sub'
-               else if se <=? ue then (sb, ub - 1) :: sub_go src' sub
-               else (sb, ub - 1) :: inner (ue + 1) sub'
-             else inner sb sub'
-         end) sb0
+  | (sb0, se) :: src' => sub_inner (sub_go src') se src' sb0
+  end.
+
+(** the while loop of intersectRanges (it ends as soon as the other token is exhausted) *)
+Fixpoint int_inner (rec : list rng -> list rng) (se : N) (sb : N) (tk : list rng) : list rng :=
+  match tk with
+  | [] => []
+  | (tb, te) :: tk' =>
+      if se <? tb then rec tk
+      else if (tb <=? se) && (sb <=? te) then
+        if (tb <=? sb) && (se <=? te) then (sb, se) :: rec tk
+        else if tb <=? sb then (sb, te) :: int_inner rec se (te + 1) tk'
+        else if se <=? te then (tb, se) :: rec tk
+        else (tb, te) :: int_inner rec se (te + 1) tk'
+      else int_inner rec se sb tk'
   end.
 
 Fixpoint int_go (src : list rng) : list rng -> list rng :=
   match src with
   | [] => fun _ => []
-  | (sb0, se) :: src' =>
-      (fix inner (sb : N) (tk : list rng) : list rng :=
-         match tk with
-         | [] => []
-         | (tb, te) :: tk' =>
-             if se <? tb then int_go src' tk
-             else if (tb <=? se) && (sb <=? te) then
-               if (tb <=? sb) && (se <=? te) then (sb, se) :: int_go src' tk
-               else if tb <=? sb then (sb, te) :: inner (te + 1) tk'
-               else if se <=? te then (tb, se) :: int_go src' tk
-               else (tb, te) :: inner (te + 1) tk'
-             else inner sb tk'
-         end) sb0
+  | (sb0, se) :: src' => int_inner (int_go src') se sb0
   end.
 
 Definition new_max (t o : rtok) : nat :=
